@@ -196,6 +196,34 @@ func runC13(c *Ctx) {
 	for _, s := range blockCodecs {
 		c.codecPair(s)
 	}
+	// ---- reading a complete part set back: no byte of a part is dropped at a part boundary -------------------------------
+	if fn := c.Fn("types", "PartSetReader", "Read"); fn != nil {
+		first := `call:(*types.PartSetReader).Read(psr, p[:call:(*bytes.Reader).Len(psr.reader)])`
+		second := `call:(*types.PartSetReader).Read(psr, p[call:(*bytes.Reader).Len(psr.reader):])`
+		n := 0
+		for _, in := range findInstrs(fn, AnyReturn()) {
+			r := in.(*ssa.Return)
+			if len(r.Results) != 2 {
+				continue
+			}
+			a, b := pathOf(r.Results[0]), pathOf(r.Results[1])
+			if strings.Contains(a, second) || strings.Contains(b, second) {
+				n++
+				c.Check("F", fnName(fn)+"/a read across a part boundary returns the bytes of both halves together with the second half's error", a == "("+first+"#0 + "+second+"#0)" && b == second+"#1", instrPos(in), 1,
+					"returns "+clip(a, 120)+", "+clip(b, 120)+": bytes delivered together with io.EOF by the nested read must be counted, io.Reader allows n > 0 with err == io.EOF")
+			}
+		}
+		c.Check("F", fnName(fn)+"/one exit after the second half", n == 1, fn.Pos(), n, "")
+		c.Guarded(fn, "report end of data", ReturnWith(1, `^global:io\.EOF$`), G("current part exhausted", Cmp(`^call:\(\*bytes\.Reader\)\.Len\(psr\.reader\)$`, "<=", `^const:0$`)), G("no part left", Cmp(`^psr\.i$`, ">=", `^call:len\(psr\.parts\)$`)))
+		k := 0
+		for _, in := range findInstrs(fn, StoreTo(`^&psr\.reader$`)) {
+			if pathOf(in.(*ssa.Store).Val) == "call:bytes.NewReader(psr.parts[psr.i].Bytes)" {
+				k++
+			}
+		}
+		c.Check("F", fnName(fn)+"/moves on to the bytes of the next part", k == 1, fn.Pos(), k, "")
+	}
+
 }
 
 // merklePrefixes: leafPrefix and innerPrefix are distinct constants; leafHash / innerHash use their own.
